@@ -55,6 +55,7 @@ func runC14(c *Ctx) {
 	requestHeaderVerbatim(c, "R1")
 	filterStatusReportsCommandError(c, "R2")
 	delayedPointersSurviveRounds(c, "R4")
+	incomingPayloadWhole(c, "R1")
 	fc := p.Fn("commands", "filterCommand")
 	ds := p.Fn("commands", "delayedSmudge")
 	if fc == nil || ds == nil {
